@@ -1,0 +1,98 @@
+//! Verification hooks for the work-packet scheduler (cargo feature `mmtk_verif`; add-only).
+//!
+//! The stage table of the linked crate, read from the real `WorkBucketStage` enum and its
+//! predicates, so that the Lean model (`Generated/Stages.lean`) is regenerated from the code.
+
+use crate::scheduler::WorkBucketStage;
+use enum_map::Enum;
+
+/// One row of the stage table.
+pub struct StageRow {
+    /// index in the enum (= the order in which `update_buckets` visits the buckets)
+    pub index: usize,
+    /// `Debug` name
+    pub name: String,
+    /// `WorkBucketStage::is_stw`
+    pub is_stw: bool,
+    /// `WorkBucketStage::is_sequentially_opened`
+    pub is_sequentially_opened: bool,
+    /// `WorkBucketStage::is_first_stw_stage`
+    pub is_first_stw: bool,
+    /// `WorkBucketStage::is_always_open`
+    pub is_always_open: bool,
+    /// `WorkBucketStage::is_open_by_default`
+    pub is_open_by_default: bool,
+    /// `WorkBucketStage::is_enabled_by_default`
+    pub is_enabled_by_default: bool,
+}
+
+/// The stage table, in enum order.
+pub fn stages() -> Vec<StageRow> {
+    (0..WorkBucketStage::LENGTH)
+        .map(|i| {
+            let s = WorkBucketStage::from_usize(i);
+            StageRow {
+                index: i,
+                name: format!("{:?}", s),
+                is_stw: s.is_stw(),
+                is_sequentially_opened: s.is_sequentially_opened(),
+                is_first_stw: s.is_first_stw_stage(),
+                is_always_open: s.is_always_open(),
+                is_open_by_default: s.is_open_by_default(),
+                is_enabled_by_default: s.is_enabled_by_default(),
+            }
+        })
+        .collect()
+}
+
+/// `GCWorker::LOCALLY_CACHED_WORK_PACKETS` (private associated constant; read through the
+/// `mmtk_verif` accessor next to it).
+pub fn locally_cached_work_packets<VM: crate::vm::VMBinding>() -> usize {
+    crate::scheduler::GCWorker::<VM>::VERIF_LOCALLY_CACHED_WORK_PACKETS
+}
+
+/// `WorkerGoals` (crate-private) behind a plain interface: goals are `0 = Gc`, `1 = Shutdown`,
+/// `2 = StopForFork` (the enum order, i.e. the priority order).
+pub struct Goals(crate::scheduler::verif_goals::WorkerGoals);
+
+fn goal_of(g: usize) -> crate::scheduler::verif_goals::WorkerGoal {
+    use crate::scheduler::verif_goals::WorkerGoal;
+    match g {
+        0 => WorkerGoal::Gc,
+        1 => WorkerGoal::Shutdown,
+        _ => WorkerGoal::StopForFork,
+    }
+}
+
+impl Default for Goals {
+    fn default() -> Self {
+        Self::new()
+    }
+}
+
+impl Goals {
+    /// `WorkerGoals::default()`
+    pub fn new() -> Self {
+        Goals(Default::default())
+    }
+    /// `set_request`
+    pub fn set_request(&mut self, g: usize) -> bool {
+        self.0.set_request(goal_of(g))
+    }
+    /// `poll_next_goal`
+    pub fn poll_next_goal(&mut self) -> Option<usize> {
+        self.0.poll_next_goal().map(|g| g as usize)
+    }
+    /// `current`
+    pub fn current(&self) -> Option<usize> {
+        self.0.current().map(|g| g as usize)
+    }
+    /// `on_current_goal_completed`
+    pub fn complete(&mut self) {
+        self.0.on_current_goal_completed()
+    }
+    /// `debug_is_requested`
+    pub fn is_requested(&self, g: usize) -> bool {
+        self.0.debug_is_requested(goal_of(g))
+    }
+}
